@@ -117,6 +117,11 @@ def addArcWith (g : Graph) (orig dest : String) (time cost : Rat) (strictRule : 
         ({ g with arcs := dictSet g.arcs (i, j) ⟨orig, dest, time, cost⟩ }, .ok (some true))
       else (g, .ok (some false))
 
+/-- strict `set_depot` (repaired): every stored arc is re-added through `add_arc` now that the depot is known
+    (`old_arcs = self.arcs; self.vrptw.arcs = dict(); for arc in old_arcs.values(): self.add_arc(...)`) -/
+def recheckArcs (g : Graph) (strictRule : Nat → Bool) : Graph :=
+  g.arcs.foldl (fun acc e => (addArcWith acc e.2.orig e.2.dest e.2.time e.2.cost strictRule).1) { g with arcs := [] }
+
 def gstep (fl : Flavor) (g : Graph) (op : GOp) : Graph × GOut :=
   match op with
   | .addNode nm d lo hi => addNodeStep g nm d lo hi
@@ -127,15 +132,27 @@ def gstep (fl : Flavor) (g : Graph) (op : GOp) : Graph × GOut :=
   | .setDepot nm =>
     match fl with
     | .base => setDepotBase g nm
-    | .seq _ =>
+    | .seq strict =>
       let r := setDepotBase g nm
       match r.2 with
       | .error e => (g, .error e)
       | .ok _ =>
+        -- strict mode: arcs stored so far were checked against whichever node was first at the time
+        let g1 := if strict then recheckArcs r.1 (fun i => strict && i != 0) else r.1
         -- the depot self-arc is (re)assigned: arcs[(0,0)] = Arc(nodes[0], nodes[0], 0, 0)
-        match r.1.nodes.head? with
+        match g1.nodes.head? with
         | none => (g, .error .index)
-        | some n0 => ({ r.1 with arcs := dictSet r.1.arcs (0, 0) ⟨n0.name, n0.name, 0, 0⟩ }, .ok none)
+        | some n0 => ({ g1 with arcs := dictSet g1.arcs (0, 0) ⟨n0.name, n0.name, 0, 0⟩ }, .ok none)
+
+/-- the pinned strict `set_depot` (arcs admitted under the depot exemption of another node stay) -/
+def gstepPinnedStrictDepot (g : Graph) (nm : String) : Graph × GOut :=
+  let r := setDepotBase g nm
+  match r.2 with
+  | .error e => (g, .error e)
+  | .ok _ =>
+    match r.1.nodes.head? with
+    | none => (g, .error .index)
+    | some n0 => ({ r.1 with arcs := dictSet r.1.arcs (0, 0) ⟨n0.name, n0.name, 0, 0⟩ }, .ok none)
 
 def grun (fl : Flavor) (g : Graph) (ops : List GOp) : Graph := ops.foldl (fun s op => (gstep fl s op).1) g
 
